@@ -180,6 +180,9 @@ struct options {
   std::vector<std::string> known;           // active known-finding exclusions
   int witness_samples = 3;
   int max_violations = 5;
+  std::string smtdump;                      // directory for SMT-LIB dumps of decided queries (second-solver cross-check)
+  int smtdump_n = 0, smtdump_done = 0;
+  unsigned long smtdump_seen = 0;
   std::string get(const std::string &k, const std::string &d = "") const {
     auto it = kv.find(k);
     return it == kv.end() ? d : it->second;
@@ -261,9 +264,21 @@ inline void check(const form &f, const char *label) {
   e.s.push();
   e.s.add(!g);
   z3::check_result r = e.timed_check();
-  if (r == z3::unsat)
+  if (r == z3::unsat) {
     R().checks_unsat++;
-  else {
+    // sample of the discharged queries for a second solver: the 1st, 2nd, 4th, 8th, ... non-trivial one
+    options &o = opts();
+    if (o.smtdump_n > 0 && o.smtdump_done < o.smtdump_n) {
+      o.smtdump_seen++;
+      if ((o.smtdump_seen & (o.smtdump_seen - 1)) == 0) {
+        std::string fn = o.smtdump + "/q" + std::to_string(o.smtdump_done++) + ".smt2";
+        if (FILE *fp = fopen(fn.c_str(), "w")) {
+          fprintf(fp, "; check '%s' decided unsat by z3\n(set-logic ALL)\n%s\n(check-sat)\n", label, e.s.to_smt2().c_str());
+          fclose(fp);
+        }
+      }
+    }
+  } else {
     R().nviol++;
     if ((int)R().violations.size() < opts().max_violations) {
       violation v;
@@ -363,6 +378,10 @@ inline void parse_args(int argc, char **argv) {
     else if (a == "--replay" && i + 1 < argc) o.replay = argv[++i];
     else if (a == "--known" && i + 1 < argc) o.known.push_back(argv[++i]);
     else if (a == "--witnesses" && i + 1 < argc) o.witness_samples = atoi(argv[++i]);
+    else if (a == "--smtdump" && i + 2 < argc) {
+      o.smtdump = argv[++i];
+      o.smtdump_n = atoi(argv[++i]);
+    }
 #ifdef SX_SYM
     else if (a == "--shard" && i + 1 < argc) {
       int k = 0, n = 1, d = 0;
